@@ -94,6 +94,7 @@ theorem owed_step {s : State} {h c0 : Nat} (a : Act) (ha : notClose a) (ho : Owe
     simp only [Option.getD_some]
     cases a with
     | close _ => exact absurd ha (by simp [notClose])
+    | eintr w => right; cases step?_eintr hs; exact ⟨ho, Nat.le_refl _⟩
     | begin t h0 =>
       simp only [step?] at hs
       repeat' split at hs
@@ -150,6 +151,7 @@ theorem step_snd_length (s : State) (a : Act) : (step s a).snd.length = s.snd.le
       repeat' split at hs
       all_goals first | (simp at hs; done) | skip
       all_goals (simp only [Option.some.injEq] at hs; subst hs; simp [setH])
+    | eintr w => cases step?_eintr hs; rfl
     | closeCbs =>
       simp only [step?] at hs
       repeat' split at hs
@@ -191,13 +193,14 @@ theorem helpful_dec {s : State} {h c0 : Nat} {a : Act} (ho : Owed s h c0) (hh : 
     have hi := inv_step' (.snd t) ho.inv
     have hp := ho.pend; have hop := ho.opn; have hc := ho.cnt; have hpc := ho.pc
     right
-    have hs : step? s (.snd t) = some (setSnd { s with efd := s.efd + 1 } t { x with pc := .dec }) := by
+    have hs : step? s (.snd t) = some (setSnd { s with efd := if s.efd ≤ s.capm1 then s.efd + 1 else s.efd } t { x with pc := .dec }) := by
       simp [step?, sndStep, hx, hw]
     simp only [step, hs, Option.getD_some] at hi ⊢
     refine ⟨⟨hi, ?_, ?_, ?_, ?_⟩, ?_⟩ <;> simp [setSnd, noClosePc, mu, rankL, hl, he] at * <;> first | done | grind
   | begin _ _ => exact absurd hh (by simp [Helpful])
   | close _ => exact absurd hh (by simp [Helpful])
   | closeCbs => exact absurd hh (by simp [Helpful])
+  | eintr _ => exact absurd hh (by simp [Helpful])
 
 /-- a step that is not a loop step and not uv_close leaves the loop thread where it is; the eventfd counter can only grow;
 other senders are untouched -/
@@ -222,6 +225,7 @@ theorem nonloop_frame (s : State) (b : Act) (hb : notClose b) (hnl : b ≠ .loop
       repeat' split at hs
       all_goals first | (simp at hs; done) | skip
       all_goals (simp only [Option.some.injEq] at hs; subst hs; simp [setSnd, setH, List.getElem?_set]; first | done | grind)
+    | eintr w => cases step?_eintr hs; simp; intros; assumption
     | closeCbs =>
       simp only [step?] at hs
       repeat' split at hs
@@ -258,6 +262,7 @@ theorem helpful_persist {s : State} {h : Nat} {a b : Act} (hh : Helpful s a)
   | begin _ _ => exact absurd hh (by simp [Helpful])
   | close _ => exact absurd hh (by simp [Helpful])
   | closeCbs => exact absurd hh (by simp [Helpful])
+  | eintr _ => exact absurd hh (by simp [Helpful])
 
 /-! ### the infinite-schedule argument -/
 def runN (σ : Nat → Act) (n : Nat) (s : State) : State := (List.range n).foldl (fun s i => step s (σ i)) s
